@@ -1,10 +1,10 @@
 import JL.Generated.Fns
+import JL.Lemmas.TieAuto
 /-! tie: `to_primitive_number`, as translated from the crate's current source, is the model's function - for every input -/
 namespace JL.Tie
 open JL
 
 theorem to_primitive_number (v : Json) : Gen.to_primitive_number v = JsOp.toPrimitiveNumber v := by
-  cases v <;> simp [Gen.to_primitive_number, JsOp.toPrimitiveNumber, rs]
-  all_goals (rename_i b; cases b <;> rfl)
+  cases v <;> tie_close [Gen.to_primitive_number, JsOp.toPrimitiveNumber]
 
 end JL.Tie
